@@ -202,6 +202,25 @@ class C09(Prop):
                         ended = True
             prev_nlv = nlv
             prev_ledger = led
+        if ended and s.env is not None:
+            # the episode has ended; a reset that the library refuses (an episode length that cannot fit) does not
+            # reopen it: the next step is still refused - no trade, no record entry. (Implementation only: what a refused
+            # reset leaves behind is not modelled.)
+            try:
+                s.env.reset(episode_length=10**6)
+                refused = False
+            except Exception:  # noqa
+                refused = True
+            if refused:
+                r.tags.add("refused-reset-after-end")
+                n0 = len(s.env.broker.track_record)
+                try:
+                    out = s.env.step(s.space.null_action())
+                    r.fail("step-accepted-after-end", after="a refused reset", done=bool(out[2]),
+                           records=(n0, len(s.env.broker.track_record)), theorem="done_refuses",
+                           clause="from then on every further step is refused")
+                except Exception:  # noqa
+                    pass
         return r
 
     def classify(self, failure, case):
